@@ -545,6 +545,12 @@ func (g *PacketGen) RunDeep() {
 	}
 	// acknowledge a random subset, out of order; interleave cleans
 	w.Update(a, b)
+	type relayedClean struct {
+		cp packettypes.CleanPacket
+		ps ProofSpec
+		h  uint64
+	}
+	var relayedCleans []relayedClean
 	tryClean := func() {
 		var maxSeq uint64 = uint64(len(g.pkts))
 		N := uint64(1 + g.r.Intn(int(maxSeq)+1))
@@ -585,6 +591,9 @@ func (g *PacketGen) RunDeep() {
 			ps := ProofSpec{Kind: "honest", Chain: a.ChainName, Height: h, Key: "clean", Src: a.ChainName, Dst: b.ChainName}
 			r2 := w.RecvClean(b, g.r.Intn(3), cp, ps, h)
 			g.stat("deep.recvclean." + ErrClass(r2.Codespace, r2.Code))
+			if r2.Code == 0 {
+				relayedCleans = append(relayedCleans, relayedClean{cp, ps, h})
+			}
 		}
 	}
 	for _, i := range perm(len(g.pkts)) {
@@ -605,6 +614,56 @@ func (g *PacketGen) RunDeep() {
 	}
 	for k := 0; k < 6; k++ {
 		tryClean()
+	}
+	// sure progress: complete the packets in sequence order up to two cut points; clean and relay
+	// the clean at each (gives the receiving chain at least two successive clean points)
+	start := 0
+	for _, cut := range []int{len(g.pkts) / 2, len(g.pkts)} {
+		for i := start; i < cut; i++ {
+			t := g.pkts[i]
+			if !t.recvOn[b.ChainName] {
+				w.Update(b, a)
+				h := w.ClientLatest(b, a.ChainName)
+				ps := ProofSpec{Kind: "honest", Chain: a.ChainName, Height: h, Key: "commit", Src: t.p.SourceChain, Dst: t.p.DestinationChain, Seq: t.p.Sequence}
+				if res := w.Recv(b, 0, t.p, t.tok, ps, h); res.Code == 0 {
+					t.recvOn[b.ChainName] = true
+					t.ack = writtenAck(res)
+					t.recvH = h
+				}
+			}
+			if t.ack != nil && !t.ackedOn[a.ChainName] {
+				w.Update(a, b)
+				h := w.ClientLatest(a, b.ChainName)
+				ps := ProofSpec{Kind: "honest", Chain: b.ChainName, Height: h, Key: "ack", Src: t.p.SourceChain, Dst: t.p.DestinationChain, Seq: t.p.Sequence}
+				if res := w.Ack(a, 0, t.p, t.tok, t.ack, ps, h); res.Code == 0 {
+					t.ackedOn[a.ChainName] = true
+					t.ackH = h
+				}
+			}
+		}
+		start = cut
+		cp := packettypes.NewCleanPacket(uint64(cut), a.ChainName, b.ChainName, "")
+		res := w.Clean(a, 0, cp)
+		g.stat("deep.cut-clean." + ErrClass(res.Codespace, res.Code))
+		if res.Code == 0 {
+			w.Update(b, a)
+			h := w.ClientLatest(b, a.ChainName)
+			ps := ProofSpec{Kind: "honest", Chain: a.ChainName, Height: h, Key: "clean", Src: a.ChainName, Dst: b.ChainName}
+			r2 := w.RecvClean(b, 0, cp, ps, h)
+			g.stat("deep.cut-recvclean." + ErrClass(r2.Codespace, r2.Code))
+			if r2.Code == 0 {
+				relayedCleans = append(relayedCleans, relayedClean{cp, ps, h})
+			}
+		}
+	}
+	// a relayer submits earlier clean messages again, each with its original proof (still genuine
+	// for its height): the clean point of the receiving chain must not move back, or the packet
+	// replays below would be delivered a second time
+	for i, rc := range relayedCleans {
+		if i+1 < len(relayedCleans) && g.r.Chance(70) {
+			r := w.RecvClean(b, g.r.Intn(3), rc.cp, rc.ps, rc.h)
+			g.stat("deep.replay-recvclean." + ErrClass(r.Codespace, r.Code))
+		}
 	}
 	// replays after cleaning: the *original* messages (old proof heights still have consensus
 	// states on the receiving client, and the old proofs are still genuine for those heights)
